@@ -217,10 +217,17 @@ func (state *RuntimeState) getStorageDataFromStorageStringDataJWT(serializedToke
 	// At this stage crypto has been verified (data actually comes from a valid signer),
 	// Now is time to do semantic validation
 	issuer := state.idpGetIssuer()
+	now := time.Now().Unix()
 	if inboundJWT.Issuer != issuer || inboundJWT.TokenType != "storage_data" ||
 		len(inboundJWT.Audience) < 1 || inboundJWT.Audience[0] != issuer ||
-		inboundJWT.NotBefore > time.Now().Unix() {
+		inboundJWT.NotBefore > now {
 		err = errors.New("invalid JWT values")
+		return rvalue, err
+	}
+	// The expiration column in the DB is not covered by the signature, the
+	// claim is: a record is only good until its signed expiration.
+	if inboundJWT.Expiration < now {
+		err = errors.New("expired storage JWT")
 		return rvalue, err
 	}
 	return inboundJWT, nil
